@@ -161,7 +161,7 @@ func (tdsChan *Channel) Close() error {
 		// header-only packets
 
 		// Send packet to tear down logical channel
-		teardown := NewPacket(tdsChan.tdsConn.PacketSize())
+		teardown := NewPacket(PacketHeaderSize)
 		teardown.Data = nil
 		tdsChan.CurrentHeaderType = TDS_BUF_CLOSE
 
